@@ -115,3 +115,122 @@ def crit_config(name, arity=None):
     if n == 0:
         return (name, None)
     return (name, n if arity is None else arity)
+
+
+# ---- objective helpers -------------------------------------------------------------------------------
+def obj_vars(fam):
+    return sorted({m.var for m in fam.monos if m.var and m.var.startswith('obj:')})
+
+
+def is_freeze(fam):
+    """obj <=/>= val(obj): one objective variable with coefficient +-1 and the constant val(same variable)."""
+    ov = obj_vars(fam)
+    if len(ov) != 1 or fam.op != '<=':
+        return None
+    v = ov[0]
+    rest = [m for m in fam.monos if m.var != v]
+    mine = [m for m in fam.monos if m.var == v]
+    if len(mine) != 1 or len(rest) != 1 or rest[0].var is not None or rest[0].sumvar:
+        return None
+    c = mine[0].coef
+    k = rest[0].coef
+    valatom = 'val(%s)' % v
+    if c == pconst(1) and k == pneg(patom(valatom)):
+        return (v, '<=')          # obj - val <= 0
+    if c == pconst(-1) and k == patom(valatom):
+        return (v, '>=')          # val - obj <= 0
+    return None
+
+
+def rename_obj(fam, new='obj:obj_OBJ'):
+    ov = obj_vars(fam)
+    if len(ov) != 1:
+        return fam
+    old = ov[0]
+    ms = []
+    for m in fam.monos:
+        coef = psubst(m.coef, lambda a: patom(a.replace(old, new)) if old in a else None)
+        ms.append(lp.Mono(coef, new if m.var == old else m.var, m.sumvar, m.preds))
+    return lp.Family([q.replace(old, new) for q in fam.quants], fam.guards, fam.op, ms)
+
+
+def sense_of(run):
+    """'MAX' / 'MIN' sense of the LpProblem as constructed (PuLP default: minimise)."""
+    np_ = run.of('newprob')
+    if not np_:
+        return None
+    args = np_[0].eff.value[2]
+    s = None
+    if len(args) >= 2:
+        s = args[1]
+    if s is None:
+        return 'MIN'
+    if s == S('LpMaximize') or s == C(-1):
+        return 'MAX'
+    if s == S('LpMinimize') or s == C(1):
+        return 'MIN'
+    return None
+
+
+def setobj_direction(run, ev):
+    """Direction in which the objective variable of setobj event ev is pushed: ('MAX'|'MIN', objvar) or None."""
+    sense = sense_of(run)
+    cn = run.canon
+    cn.begin()
+    try:
+        for c, _ in ev.ctx:
+            if c.kind == 'for':
+                cn.name_quant(c.binder, [])
+        monos = [m for m in cn.lin(ev.eff.expr) if m.coef]
+    except Unknown:
+        return None
+    if len(monos) != 1 or not (monos[0].var or '').startswith('obj:') or not is_pconst(monos[0].coef):
+        return None
+    c = pconstval(monos[0].coef)
+    if c == 0 or sense is None:
+        return None
+    up = (sense == 'MAX') == (c > 0)
+    return ('MAX' if up else 'MIN', monos[0].var)
+
+
+# ---- load-balancing agreement (C02.R5 / C03.R3 / C04.R6) ----------------------------------------------------
+def lb_agreement(rep, r, rule, cfg):
+    """If any constraint/objective of this run mentions the deviation variables d[k], they must be declared in this run
+    and both defining families d[k] >= load-t, d[k] >= t-load must be added, unconditionally, before the first solve."""
+    first = r.first_solve()
+    uses = []
+    undeclared = []
+    for ev in r.of('addc'):
+        if ev.fam is not None and any((m.var or '').startswith('d[') for m in ev.fam.monos) and ev.iters:
+            uses.append(ev)
+        if ev.fam is None and ev.err and 'abs_lec_diff' in ev.err:
+            undeclared.append(ev)
+    where = r.repo.method('LP_Solver', 'add_constraints', required=False)
+    where = where.where if where else r.repo.method('LP_Solver', 'run').where
+    for ev in undeclared:
+        rep.fail(rule, ev.where, 'the load-deviation variables exist whenever a criterion reads them %s' % cfg, got='abs_lec_diff read but never declared in this run',
+                 want='declared in pulp_setup for this criterion list', construct='deviation variables undeclared', loc=ev.loc)
+    if not uses:
+        return
+    declared = 'abs_lec_diff' in r.canon.var_arrays or any(l == 'd' for l, _ in r.canon.arr_letter.values())
+    rep.check(declared, rule, uses[0].where, 'the load-deviation variables are declared for this criterion list %s' % cfg,
+              got='not declared', construct='deviation variables undeclared', loc=uses[0].loc)
+    for k, entry in spec.ABSDIFF.items():
+        ref = ref_family(entry)
+        hits = [e for e in r.of('addc') if e.fam is not None and e.fam.core() == ref.core()]
+        ok = [e for e in hits if first is not None and e.order < first and not e.sym_ifs]
+        if ok:
+            rep.ok(rule, ok[0].where, 'deviation definition %s is in place before the first solve %s' % (k, cfg), got=ok[0].fam.core(), want=ref.core(), loc=ok[0].loc)
+        elif hits:
+            e = hits[0]
+            rep.fail(rule, e.where, 'deviation definition %s is added unconditionally before the first solve %s' % (k, cfg),
+                     got='conditional or late', construct='deviation definition %s conditional/late' % k, loc=e.loc)
+        else:
+            near = [e for e in r.of('addc') if e.fam is not None and e.fam.quants == ref.quants and any((m.var or '').startswith('d[') for m in e.fam.monos) and not obj_vars(e.fam)]
+            near = [e for e in near if e.fam.core() not in {ref_family(x).core() for x in spec.ABSDIFF.values()}]
+            if near:
+                rep.fail(rule, near[0].where, 'deviation definition %s equals d[k] >= +-(load - target) %s' % (k, cfg), got=near[0].fam.core(), want=ref.core(),
+                         construct='deviation definition %s deviates: %s' % (k, near[0].fam.core()), loc=near[0].loc)
+            else:
+                rep.fail(rule, where, 'deviation definition %s is added when a criterion uses the deviation variables %s' % (k, cfg),
+                         got='absent although %s uses d[k]' % uses[0].loc, want=ref.core(), construct='deviation definition %s absent' % k)
